@@ -103,7 +103,7 @@ def obsInv (base : Data Float) (stage : Nat) (_skipsensor : Bool) (d : Data Floa
 /-- hinge / slide chain: `mj_integratePos` adds `h` to coordinate `i` -/
 def intPos (l : List Float) (i : Nat) (h : Float) : List Float := nudge l i h
 
-def baseData (nv na : Nat) (ctrl : List Float) (qacc : Bool) : Data Float := fun f =>
+def baseData (nv na : Nat) (ctrl : List Float) (qacc : Bool) : Data Float := Data.mk fun f =>
   match f with
   | .time => [0.5]
   | .qpos => (List.range nv).map fun i => 0.1 * Float.ofNat (i + 1)
